@@ -60,11 +60,16 @@ def log_acceptance(kind: str, ctx, it: dict, crit=None) -> tuple[float | None, d
             hydro = np.array_equal(S, P * np.eye(3))
             det["hydrostatic"] = hydro
             if not hydro:
-                eps = getattr(crit, "strain_tensor", None)
-                if eps is None:
-                    return None, det
-                eps = np.asarray(eps, dtype=float)
+                # The statement does not define the strain measure.  The oracle uses the one the package implements at
+                # the pinned commit, recomputed independently from the two cells: eps = (D^T - 1)/2 with D = h h0^-1
+                # (h, h0: current / remembered cell, rows = cell vectors).  What the criteria reports is compared with it.
+                h = np.asarray(atoms.cell.array, dtype=float)
+                h0 = np.asarray(ctx.last_cell, dtype=float)
+                eps = 0.5 * ((h @ np.linalg.inv(h0)).T - np.eye(3))
                 det["strain"] = eps
+                rep = getattr(crit, "strain_tensor", None)
+                if rep is not None:
+                    det["strain_reported"] = np.asarray(rep, dtype=float)
                 logA += -V0 * float(np.trace((S - P * np.eye(3)) @ eps)) / kT
         return logA, det
     if kind == "grand":
